@@ -530,7 +530,7 @@ def run(ctx: core.Context) -> int:
     quick = ctx.quick
     only = getattr(ctx, 'only', None)
     want = lambda name: not only or name in only
-    states = ['plain', 'encrypted', 'encrypted+authenticated'] + ([] if quick else ['authenticated_only'])
+    states = ['plain', 'encrypted', 'encrypted+authenticated', 'authenticated_only']  # the last: authenticated (e.g. BR/EDR, or encryption switched off again) but not encrypted
     bearers = ['att', 'eatt']
 
     if want('lattice'):
